@@ -152,11 +152,12 @@ def rule_numeric_regex(rep, tier, rule="C-num-regex"):
     """Every numeric regex of the long reader accepts every string the writer's number formatter can produce."""
     idx = common.ctx()
     rd, wr = idx.get(LONG_R), idx.get(LONG_W)
-    # writer templates per field keyword
-    templates = {}
-    for s in tf.percent_slots(wr):
-        if s.conv == "s" and not s.quoted:
-            templates.setdefault(s.key, s.template)
+    # the writer's line around each numeral, read off the symbolic document of the long form
+    try:
+        templates = writer_line_templates()
+    except (Undecided, PyRaise) as e:
+        rep.undecided(rule, wr.short, "line templates", "the long emitter could not be interpreted: %s" % e)
+        return
     n = 0
     for call, pat, flags in tf.regex_literals(rd, idx):
         m = re.match(r"(xmin|xmax|number)", pat)
@@ -164,9 +165,9 @@ def rule_numeric_regex(rep, tier, rule="C-num-regex"):
             continue
         n += 1
         key = m.group(1)
-        tpl = templates.get(key)
-        if tpl is None:
-            rep.undecided(rule, rd.short, pat, "no writer template for field '%s'" % key)
+        tpls = sorted(templates.get(key, ()))
+        if not tpls:
+            rep.undecided(rule, rd.short, pat, "the long emitter writes no numeral on a line starting with '%s'" % key)
             continue
         bad = []
         try:
@@ -175,10 +176,11 @@ def rule_numeric_regex(rep, tier, rule="C-num-regex"):
             rep.refuted(rule, rd.short, pat, "regex does not compile: %s" % e)
             continue
         for ex in exemplars(tier):
-            line = "    " + (tpl % ex)
-            mm = rx.search(line)
-            if not mm or mm.groups()[0] != ex:
-                bad.append(ex)
+            for tpl in tpls:
+                line = tpl % ex
+                mm = rx.search(line)
+                if (not mm or mm.groups()[0] != ex) and ex not in bad:
+                    bad.append(ex)
         rep.check(not bad, rule, rd.short, pat, ok="matches the whole number for %d exemplar strings of the writer's numeric language (integers, decimals, exponent notation)" % len(exemplars(tier)),
                   bad="the writer emits %s (repr of a float) but this regex does not capture it whole: a written file cannot be read back" % ", ".join(bad[:4]), loc=rd.where(call))
     rep.floor(rule, 5, "tier xmin/xmax, interval xmin/xmax, point number")
@@ -449,30 +451,63 @@ def generic_dict(shape):
     return d
 
 
-def rule_written_document(rep, tier, rule="W-doc"):
-    """Both text emitters, interpreted on generic textgrids, produce a document from which an independent reader
-    written from Praat's file specification recovers exactly the dictionary they were given."""
+def _doc_overrides():
     from ..absint import Str
-    from . import docmodel as dm
 
-    idx = common.ctx()
-    shapes = [[("interval", 2), ("point", 2)], [("point", 1), ("interval", 1), ("interval", 0)], []]
-    if tier == "thorough":
-        shapes += [[("interval", 3), ("interval", 0), ("point", 0), ("point", 3)], [("point", 0)], [("interval", 1)] * 4]
-    st = State([("0", Lin.num(0))], [0])
     ov = dict(default_overrides())
     # numToStr is decided separately (C-exact); here the numeral it writes is an atom that denotes its argument
     ov["my_math.numToStr"] = lambda I, args, kwargs: Str("num", (I.num(args[0]),))
+
+    # escapeQuotes is decided separately (C-esc, on exemplar texts); here it is the quote-doubling of its argument
+    def esc(I, args, kwargs):
+        v = args[0]
+        if isinstance(v, str):
+            return v.replace('"', '""')
+        if isinstance(v, Str) and v.kind in ("var", "raw"):
+            return Str("esc", (v,))
+        raise Undecided("escapeQuotes(%r)" % (v,))
+    ov["utils.escapeQuotes"] = esc
+    return ov
+
+
+_DOC_CACHE = {}
+
+
+def symbolic_document(spec, shape):
+    """(Interp, dict, pieces) of the text `spec` emits for the generic textgrid of `shape` (cached per run)."""
+    from . import docmodel as dm
+
+    key = (spec, tuple(shape))
+    if key not in _DOC_CACHE:
+        idx = common.ctx()
+        st = State([("0", Lin.num(0))], [0])
+        I = Interp(idx, st, overrides=_doc_overrides())
+        d = generic_dict(shape)
+        doc = I.call_function(idx.get(spec), [d], {})
+        _DOC_CACHE[key] = (I, d, dm.flatten(doc))
+    return _DOC_CACHE[key]
+
+
+DOC_SHAPES = [[("interval", 2), ("point", 3)], [("point", 1), ("interval", 1), ("interval", 0)], []]
+
+
+def rule_written_document(rep, tier, rule="W-doc"):
+    """Both text emitters, interpreted on generic textgrids, produce a document from which an independent reader
+    written from Praat's file specification recovers exactly the dictionary they were given."""
+    from . import docmodel as dm
+
+    idx = common.ctx()
+    shapes = list(DOC_SHAPES)
+    if tier == "thorough":
+        shapes += [[("interval", 3), ("interval", 0), ("point", 0), ("point", 4)], [("point", 0)], [("interval", 1)] * 4]
     for spec in (LONG_W, SHORT_W):
         fn = idx.get(spec)
         rep.functions.add(fn.qual)
         for shape in shapes:
             what = "generic textgrid [%s]" % ", ".join("%s x%d" % sk for sk in shape)
-            I = Interp(idx, st, overrides=ov)
-            d = generic_dict(shape)
             try:
-                doc = I.call_function(fn, [d], {})
-                toks = dm.tokenize(dm.flatten(doc))
+                I, d, pieces = symbolic_document(spec, shape)
+                toks = dm.tokenize(pieces)
                 back = dm.read_textgrid(toks)
                 diff = dm.compare(I, back, d)
             except dm.DocError as e:
@@ -487,6 +522,49 @@ def rule_written_document(rep, tier, rule="W-doc"):
             rep.check(diff is None, rule, fn.short, what, ok="an independent reader of Praat's text format recovers every name, class, span, size, time and label, in order",
                       bad="an independent reader of Praat's text format recovers something else: %s" % diff, loc=fn.loc)
     rep.floor(rule, 6)
+
+
+def rule_escape_function(rep, rule="C-esc"):
+    """utils.escapeQuotes, interpreted on exemplar texts, doubles every double quote and changes nothing else."""
+    idx = common.ctx()
+    fn = idx.get("utilities.utils:escapeQuotes")
+    rep.functions.add(fn.qual)
+    st = State([("0", Lin.num(0))], [0])
+    bad = []
+    exs = ["", "plain", '"', '""', 'say "hi"', '"a""b"', "it's", 'x"', '\"', 'a\nb"c']
+    for ex in exs:
+        I = Interp(idx, st, overrides=default_overrides())
+        try:
+            got = I.call_function(fn, [ex], {})
+        except PyRaise as e:
+            bad.append("%r -> raises %s" % (ex, e.name))
+            continue
+        except Undecided as e:
+            rep.undecided(rule, fn.short, "escapeQuotes(%r)" % ex, str(e))
+            return
+        if got != ex.replace('"', '""'):
+            bad.append("%r -> %r" % (ex, got))
+    rep.check(not bad, rule, fn.short, "escapeQuotes on %d exemplar texts" % len(exs), ok="every double quote is doubled, nothing else changes",
+              bad="escapeQuotes does not double quotes: %s" % "; ".join(bad[:3]), loc=fn.loc)
+    rep.floor(rule, 1)
+
+
+def writer_line_templates():
+    """{keyword: set of line templates with one %s} for the numerals of the long form, read off the symbolic document."""
+    from ..absint import Str
+
+    _, _, pieces = symbolic_document(LONG_W, DOC_SHAPES[0])
+    out = {}
+    for i, p in enumerate(pieces):
+        if isinstance(p, Str) and p.kind == "num":
+            before = pieces[i - 1] if i and isinstance(pieces[i - 1], str) else ""
+            after = pieces[i + 1] if i + 1 < len(pieces) and isinstance(pieces[i + 1], str) else ""
+            pre = before.rsplit("\n", 1)[-1]
+            post = after.split("\n", 1)[0]
+            m = re.match(r"\s*(\w+)", pre)
+            if m:
+                out.setdefault(m.group(1), set()).add(pre.replace("%", "%%") + "%s" + post.replace("%", "%%"))
+    return out
 
 
 # ------------------------------------------------------------------------------------ C-blocks
